@@ -331,8 +331,8 @@ func runC17(ch *Choices, cfg *RunCfg) (o *Outcome) {
 	if runtime.NumGoroutine() > g0 {
 		synctest.Wait()
 		if n := runtime.NumGoroutine() - g0; n > 0 {
-			o.Unsupported = fmt.Sprintf("constructing the pools started %d goroutine(s) of the library's own; the simulator schedules caller tasks only", n)
-			return o
+			// tolerated: they run outside the scheduler (see Sched.stepHook)
+			o.Probes["pool construction started goroutines of the library's own"] += n
 		}
 	}
 	faultsOn := ch.Intn(3, "faults.on") == 1
@@ -558,7 +558,7 @@ func runC17(ch *Choices, cfg *RunCfg) (o *Outcome) {
 	o.Steps = s.Steps
 	o.Evals = 1
 	if s.Foreign {
-		o.Unsupported = "library code ran on a goroutine of the library's own while simulated time passed (a background goroutine woken by a timer); the simulator schedules caller tasks only"
+		o.Unsupported = "a goroutine of the library's own waited for a lock that a parked caller task may hold; it would spin while simulated time cannot advance (the simulator schedules caller tasks only)"
 		return o
 	}
 	if s.BlockedTask != nil {
